@@ -89,7 +89,7 @@ def main(tier, replay=None):
     out = clean_dir(os.path.join(wd, "out"))
     # self-test of the binding (C10_SELFTEST=corrupt): one recorded leaf width of every trace is corrupted
     corrupt = 1 if os.environ.get("C10_SELFTEST") == "corrupt" else 0
-    summary, problems = pc.run_harness(inputs, out, mode="parse", trace_max=40 if tier == "quick" else 48, corrupt=corrupt)
+    summary, problems = pc.run_harness(inputs, out, mode="parse", trace_max=40, corrupt=corrupt)
     t_harness = time.time() - t0 - t_design - t_gen
     log(f"[C10] harness: {json.dumps({k: summary[k] for k in ('inputs', 'parsed', 'nodes', 'leaves', 'with_skipped_token', 'with_skipped_node', 'with_missing', 'distinct_traces', 'wall_ms')})}")
     if summary["inputs"] + len([p for p in problems if p["kind"] == "crash"]) < n_inputs:
@@ -134,7 +134,7 @@ def main(tier, replay=None):
     chk.assumptions = [
         "scope: module files (Parser::parse_file_green via file_syntax of a FileKind::Module file); the Expr / StatementList entry points have no end-of-file terminal by construction",
         "driver assumption G1 of the model (no skipped token is pending when a taken node is skipped) is checked on every recorded trace, not assumed for the implementation",
-        "traces with more than 40/48 lexer terminals are checked by the tree laws only (not by TLC)",
+        "traces with more than 40 lexer terminals are checked by the tree laws only (not by TLC)",
         "the lexer's terminal sequence is taken from the public Lexer run separately on the same text",
     ]
     return chk.finish({
@@ -144,7 +144,7 @@ def main(tier, replay=None):
         "inputs": n_inputs, "evaluations": summary["inputs"],
         "distinct_nontrivial": summary["distinct_nontrivial_traces"],
         "rule": "inputs = all LexModel strings/soups of the tier + seeded corpus mutants + corpus originals + nesting probes; "
-                "distinct = distinct abstract (lexer terminals, tree leaves) trace among inputs with <= 40/48 terminals; "
+                "distinct = distinct abstract (lexer terminals, tree leaves) trace among inputs with <= 40 terminals; "
                 "non-trivial = the tree contains a skipped token, a missing token or a skipped node",
         "tree_nodes_checked": summary["nodes"], "tree_leaves": summary["leaves"],
         "inputs_with_skipped_token": summary["with_skipped_token"], "inputs_with_skipped_node": summary["with_skipped_node"],
